@@ -1,7 +1,7 @@
 #!/venv/bin/python
 """Regenerate /verif/MANIFEST.json from the rule modules (run from /verif).  Hand-maintained texts live in the
 rule modules (EXPLANATION / TECHNIQUE / LEVEL_TEXT) and in NOT_APPLICABLE below."""
-RP = "  Additionally rule <ID>-RP runs nine shared pitfall lints over the files the property is anchored in (a shared mutable fill that is written through, a per-iteration value that leaks into the next loop iteration, a mutated mutable default argument, a stored late-binding closure, a loop-scoped value read inside a later loop, a per-call memo keyed by one attribute of the object its value is computed from, an ordered result built from the iteration order of a set, a deepcopy whose memo is shared between loop iterations, a float quotient cut to an integer by truncation instead of rounding); it decides the absence of these defect shapes in the mechanism's code, not the behaviour."
+RP = "  Additionally rule <ID>-RP runs ten shared pitfall lints over the files the property is anchored in (a shared mutable fill that is written through, a per-iteration value that leaks into the next loop iteration, a mutated mutable default argument, a stored late-binding closure, a loop-scoped value read inside a later loop, a per-call memo keyed by one attribute of the object its value is computed from, an ordered result built from the iteration order of a set, a deepcopy whose memo is shared between loop iterations, a float quotient cut to an integer by truncation instead of rounding, an allclose/isclose that names an absolute tolerance but keeps the default relative one); it decides the absence of these defect shapes in the mechanism's code, not the behaviour."
 import importlib
 import json
 import os
